@@ -116,6 +116,7 @@ def run_frame(mods, c, partner, seed, kind, scenario, calls):
   out = []
   try:
     model = mods['iroas'].TBRiROAS(use_cooldown=True)
+    base.refit_prelude(model, df, iroas=True)
     model.fit(df)
     fit_error = None
   except Exception as e:  # pylint: disable=broad-except
